@@ -58,6 +58,7 @@ def main():
     ap.add_argument('--tier', default='quick')
     ap.add_argument('--logs', default=None)
     ap.add_argument('--seeded', action='store_true', help='also run seeded/*/patch.diff')
+    ap.add_argument('--record', action='store_true', help='write the verdict into seeded/<id>/meta.json')
     a = ap.parse_args()
     ms = []
     for name in sorted(os.listdir(os.path.join(VERIF, 'mutants'))):
@@ -80,6 +81,14 @@ def main():
     with cf.ThreadPoolExecutor(a.jobs) as ex:
         for m, verdict, info in ex.map(lambda m: run_one(m, a.tier, a.logs), ms):
             print('%-10s %-4s %-28s %s' % (verdict, m['property'], m['id'], info), flush=True)
+            if a.record and m['id'].startswith('seeded-') and verdict in ('CAUGHT', 'MISSED'):
+                mp = os.path.join(os.path.dirname(m['patch']), 'meta.json')
+                mj = json.load(open(mp))
+                import re as _re
+                keys = _re.findall(r'key=(\S+)', info)
+                mj['caught_by'] = {'check': './check %s --tier %s' % (m['property'], a.tier), 'verdict': verdict,
+                                   'violation_keys': keys[:4]}
+                json.dump(mj, open(mp, 'w'), indent=1)
             if verdict != 'CAUGHT':
                 bad += 1
     print('%d mutants, %d not caught' % (len(ms), bad))
